@@ -35,4 +35,6 @@ def run(tier, seed):
                 'integration_rule(Tf,x,x0,h,f,f0) in step() is the function proved for calc_q; the two are linked by '
                 'name (step is checked against the callee contract, not the callee body)')
     run_contracts(pack, items('C04'))
+    from contracts import fn_sequence as Q
+    run_contracts(pack, [(Q.tds_fg_update('C04'),), (Q.call_models('C04'),)])
     return pack.finish()
